@@ -53,7 +53,12 @@ class ContainerMixin:
         h = p.heap
         n = h.llen(l)
         if name == "append":
-            x = self.to_sort(args[0], L.Ref)
+            if args[0].tag in ("ref", "none"):
+                x = self.to_sort(args[0], L.Ref)
+            else:
+                # a list of non-node values (dicts, strings): only its length is tracked; the element
+                # is an opaque object that is never dereferenced as a node (ASSUMED, scanned as 'opaque element')
+                x = L.fresh("opaque_elem", L.Ref)
             h1, a1 = h.define("litem", lambda old, y, i: If(And(y == l, i == n), x, old(y, i)))
             h2, a2 = h1.define("llen", lambda old, y: If(y == l, n + 1, old(y)))
             p.heap = h2
